@@ -795,6 +795,9 @@ type candidate struct {
 // match): an exact match wins; otherwise the unique best candidate among
 // those reachable by implicit conversions; otherwise ambiguous.
 func (c *checker) pickOverload(x *Call, cands []candidate) (any, string) {
+	if h, ok := c.rules.(overloadRules); ok {
+		return h.pickOverload(c, x, cands)
+	}
 	var viable []candidate
 	for _, cd := range cands {
 		if len(cd.params) != len(x.Args) {
